@@ -69,6 +69,8 @@ def decoded_offset(e):
     e = e.strip()
     if e.k == "call" and e.x["path"].endswith("u64>::from_be_bytes") and e.a:
         t = e.a[0].strip()
+        while t.k == "call" and t.a and t.x["path"].startswith("std::result::Result::<T, E>::") and t.x["path"].rsplit("::", 1)[-1] in ("unwrap", "expect"):
+            t = t.a[0].strip()      # `.try_into().expect("..")` before the conversion instead of `.map(conv).unwrap()` after it
         if t.k == "call" and t.x["path"].endswith("TryInto<U>>::try_into"):
             src = t.a[0].strip()
             if src.k == "field" and src.x["name"] == "1":
